@@ -119,3 +119,21 @@ func parseIdentifiers(l *lexer, t token) (err error) {
 func isDMLTerminator(t token) bool {
 	return t == tkEOF || t == tkEOS || t == tkInsert || t == tkUpdate || t == tkDelete || t == tkApply
 }
+
+// maxNestingDepth bounds the recursion of the term and relation parsers. Statements nested deeper than this are
+// rejected (and therefore not idempotent) instead of being allowed to exhaust the goroutine's stack, which the
+// runtime answers by terminating the whole process.
+const maxNestingDepth = 1000
+
+// enter is called before parsing one more level of a nested term or relation, leave afterwards.
+func (l *lexer) enter() error {
+	if l.depth >= maxNestingDepth {
+		return errors.New("statement is nested too deeply")
+	}
+	l.depth++
+	return nil
+}
+
+func (l *lexer) leave() {
+	l.depth--
+}
